@@ -361,6 +361,10 @@ class PathProv:
             return "OTHER:" + src(expr)
         if isinstance(expr, ast.Await):
             return self.label(expr.value, fn, depth)
+        if isinstance(expr, ast.Subscript) and isinstance(expr.slice, ast.Constant) and isinstance(expr.value, ast.Call):
+            arg = self.is_resolver_call(expr.value, fn)
+            if arg in ("WIRE", "CWD"):
+                return "REAL" if expr.slice.value == self.real_idx else "VIRTUAL" if expr.slice.value == self.virt_idx else "TOP"
         if isinstance(expr, ast.Call) and isinstance(expr.func, ast.Attribute) and isinstance(expr.func.value, ast.Name) and expr.func.value.id in ("self", "cls", "Server") \
                 and expr.func.attr in self.methods and expr.func.attr != "get_paths":
             # a helper's result: the meet of the labels of what it returns (evaluated in the helper)
